@@ -178,20 +178,21 @@ def _extract_join(model, table):
     """_join_to_slice(left, right): a right operand that is a Slice has its
     children spliced in after left, anything else makes the pair (left, right)"""
     m, fn = model.func(f"{PARSER}:_join_to_slice")
-    if len(fn.args.args) != 2:
+    if len(fn.args.args) < 2 or len(fn.args.defaults) < len(fn.args.args) - 2:
         raise AnalysisError("_join_to_slice: arity")
-    Lp, Rp = (("param", a.arg) for a in fn.args.args)
+    Lp, Rp = (("param", a.arg) for a in fn.args.args[:2])
     where = f"pymbolic/parser.py:{fn.lineno}"
     saw = {}
-    for ps in summarize(fn, plain=True):
-        if ps.term != "return":
-            continue
+    from .summary import split_conditionals
+    for ps, extra, v in [(ps, extra, v) for ps in summarize(fn, plain=True)
+                         if ps.term == "return"
+                         for extra, v in split_conditionals(ps.retval)]:
         is_slice = None
-        for _, pol, c in ps.conds:
+        for pol, c in [(pol, c) for _, pol, c in ps.conds] + [
+                (b, c) for c, b in extra]:
             if isinstance(c, tuple) and c[0] == "call" and c[1] == "isinstance" \
                     and c[2][0] == Rp and _clsname(str(c[2][1][-1])) == "Slice":
                 is_slice = pol
-        v = ps.retval
         if not (v[0] == "call" and _clsname(v[1]) == "Slice" and len(v[2]) == 1
                 and v[2][0][0] == "lit"):
             raise AnalysisError(f"_join_to_slice returns {v}")
@@ -274,7 +275,7 @@ def _follow_form(vals, where, left):
         if not (isinstance(v, tuple) and v and v[0] == "call"):
             continue
         name = v[1].split(".")[-1]
-        if name == "_join_to_slice" and len(v[2]) == 2 and v[2][0] == left \
+        if name == "_join_to_slice" and len(v[2]) >= 2 and v[2][0] == left \
                 and _is_parse_call(v[2][1]):
             forms.add("join")
         elif name == "Slice" and len(v[2]) == 1 and v[2][0][0] == "lit" and \
@@ -314,6 +315,7 @@ def _clsname(fname):
 
 def _extract_postfix(model, P, table):
     owner, fn = model.require_method(f"{PARSER}:Parser", "parse_postfix")
+    fn = model.inlined(fn)      # (private helpers are read as their bodies)
     chains = [s for s in fn.body if isinstance(s, ast.If)]
     if len(chains) != 1:
         raise AnalysisError("parse_postfix: expected one if/elif chain")
@@ -727,6 +729,7 @@ def _classify_build(cls, args, ps):
 
 def _extract_prefix(model, P, table):
     owner, fn = model.require_method(f"{PARSER}:Parser", "parse_prefix")
+    fn = model.inlined(fn)      # (private helpers are read as their bodies)
     chains = [s for s in fn.body if isinstance(s, ast.If)]
     if len(chains) != 1:
         raise AnalysisError("parse_prefix: expected one if/elif chain")
@@ -829,6 +832,7 @@ def _prefix_with_terminal_shortcut(tag, pss, table):
 
 def _extract_terminals(model, P, table):
     owner, fn = model.require_method(f"{PARSER}:Parser", "parse_terminal")
+    fn = model.inlined(fn)      # (private helpers are read as their bodies)
     chains = [s for s in fn.body if isinstance(s, ast.If)]
     branches, orelse = _chain(chains[0])
     for test, body in branches:
